@@ -1764,6 +1764,73 @@ async fn folder_api_case(init: &StateItem, seq: &[&str], work: &Path) -> Value {
     json!({"fails": fails})
 }
 
+/// Value sweep (C01): every secret value of the structure enumerator (all
+/// kinds x every optional field present / absent x user-data shapes) is
+/// created through the account, read back at once and again after a fresh
+/// sign-in from persisted storage.
+async fn value_sweep_case(init: &StateItem, work: &Path) -> Value {
+    let b = init.backend;
+    let mut fails: Vec<Value> = vec![];
+    let (mut created, mut refused) = (0u64, 0u64);
+    let r: Result<()> = async {
+        let _ = std::fs::remove_dir_all(work);
+        fsutil::copy_dir(Path::new(&init.dir), work)?;
+        clock::install();
+        clock::set_tick(0, 90_000);
+        let account_id: sos_core::AccountId = init.account_id.parse().unwrap();
+        let mut dev = Dev::open(work, b, account_id, pw(0)).await?;
+        let fid = vid(&init.model.folders[0].id);
+        let opts = || AccessOptions { folder: Some(fid), ..Default::default() };
+        let mut want: Vec<(SecretId, String, Value)> = vec![];
+        for (i, case) in vkit::vals::secrets().into_iter().enumerate() {
+            // external file content needs a real file: the file engine covers it
+            if let sos_vault::secret::Secret::File { content: sos_vault::secret::FileContent::External { .. }, .. } = &case.value {
+                continue;
+            }
+            let meta = sos_vault::secret::SecretMeta::new(format!("value-{}", i), case.value.kind());
+            let view = gen::secret_view(&case.value);
+            match dev.account.create_secret(meta, case.value.clone(), opts()).await {
+                Ok(r) => {
+                    created += 1;
+                    want.push((r.id, case.label.clone(), view.clone()));
+                    match dev.account.read_secret(&r.id, Some(&fid)).await {
+                        Ok((row, _)) => {
+                            if gen::secret_view(row.secret()) != view {
+                                if std::env::var("HIST_DEBUG").is_ok() {
+                                    eprintln!("VALUE-SWEEP {} want={} got={}", case.label, view, gen::secret_view(row.secret()));
+                                }
+                                fails.push(json!({"sig": format!("value_sweep:live_read_differs:{}:{}", case.label.split('/').next().unwrap_or(""), b.name()), "what": "a secret read back right after it was created differs from what was written", "detail": {"case": case.label}}));
+                            }
+                        }
+                        Err(e) => fails.push(json!({"sig": format!("value_sweep:live_read_failed:{}:{}", case.label.split('/').next().unwrap_or(""), b.name()), "what": format!("a secret cannot be read right after it was created: {}", e), "detail": {"case": case.label}})),
+                    }
+                }
+                Err(_) => refused += 1,
+            }
+        }
+        dev.close().await;
+        let mut d2 = Dev::open(work, b, account_id, pw(0)).await.map_err(|e| anyhow!("reload: {}", e))?;
+        for (id, label, view) in &want {
+            match d2.account.read_secret(id, Some(&fid)).await {
+                Ok((row, _)) => {
+                    if gen::secret_view(row.secret()) != *view {
+                        fails.push(json!({"sig": format!("value_sweep:reload_read_differs:{}:{}", label.split('/').next().unwrap_or(""), b.name()), "what": "after a fresh sign-in a secret differs from what was written", "detail": {"case": label}}));
+                    }
+                }
+                Err(e) => fails.push(json!({"sig": format!("value_sweep:reload_read_failed:{}:{}", label.split('/').next().unwrap_or(""), b.name()), "what": format!("after a fresh sign-in a secret cannot be read: {}", e), "detail": {"case": label}})),
+            }
+        }
+        d2.close().await;
+        Ok(())
+    }
+    .await;
+    if let Err(e) = r {
+        let msg: String = e.to_string().chars().filter(|c| !c.is_ascii_digit()).take(60).collect();
+        fails.push(json!({"sig": format!("value_sweep:error:{}:{}", msg, b.name()), "what": format!("{}", e), "detail": {}}));
+    }
+    json!({"fails": fails, "created": created, "refused": refused})
+}
+
 /// The operations of the editing device in a forced-overwrite case: they
 /// touch only folders that exist on both devices.
 fn fm_ops(m: &Model, _p: &Profile) -> Vec<Op> {
@@ -1985,6 +2052,13 @@ fn main() {
             let seq = folder_seq(idx % total, depth);
             rt.block_on(folder_api_case(init, &seq, &wd2.path().join("w")))
         });
+    }
+    if pool::worker_stage().as_deref() == Some("valuesweep") {
+        let input = std::env::var("VKIT_INPUT").expect("VKIT_INPUT");
+        let inits: Vec<StateItem> = serde_json::from_slice(&std::fs::read(&input).unwrap()).unwrap();
+        let wd2 = fsutil::WorkDir::new("hist-vs");
+        let rt = rt();
+        pool::worker_loop(|idx| rt.block_on(value_sweep_case(&inits[idx], &wd2.path().join("w"))));
     }
     if pool::worker_stage().as_deref() == Some("forcemerge") {
         let input = std::env::var("VKIT_INPUT").expect("VKIT_INPUT");
@@ -2222,6 +2296,32 @@ fn main() {
             }
         }
     }
+    // value sweep (C01)
+    let mut value_sweep = json!(null);
+    if prop == "C01" && !folder_api_inits.is_empty() {
+        let input = wd.path().join("valuesweep.json");
+        std::fs::write(&input, serde_json::to_vec(&folder_api_inits).unwrap()).unwrap();
+        let mut opts = PoolOpts::default();
+        opts.env.push(("VKIT_INPUT".into(), input.to_string_lossy().to_string()));
+        let (mut created, mut refused) = (0u64, 0u64);
+        for (i, r) in pool::run_stage("valuesweep", folder_api_inits.len(), &opts).into_iter().enumerate() {
+            match r {
+                pool::ItemResult::Crashed(w) => run.machinery(format!("value sweep {}: {}", i, w)),
+                pool::ItemResult::Done(v) => {
+                    created += v["created"].as_u64().unwrap_or(0);
+                    refused += v["refused"].as_u64().unwrap_or(0);
+                    transitions += v["created"].as_u64().unwrap_or(0);
+                    for f in v["fails"].as_array().unwrap() {
+                        run.fail(f["sig"].as_str().unwrap(), f["what"].as_str().unwrap(), json!({"engine":"hist","stage":"value_sweep","detail": f["detail"]}));
+                    }
+                }
+            }
+        }
+        if created == 0 {
+            run.machinery("vacuous: the value sweep created no secret");
+        }
+        value_sweep = json!({"secret_values_created_and_read_back": created, "values_refused_by_the_sdk": refused, "backends": backends.iter().map(|b| b.name()).collect::<Vec<_>>(), "source": "structure enumerator of the codec engine: every kind x optional fields present/absent x user-data shapes"});
+    }
     // forced overwrites (C02, C20)
     let mut force_merge_cases = json!(null);
     if (prop == "C02" || prop == "C20") && !folder_api_inits.is_empty() && std::env::var("VKIT_FRAGMENT").is_err() {
@@ -2363,6 +2463,7 @@ fn main() {
     cov.insert("profile".into(), json!(p));
     cov.insert("folder_api_id_reuse_sequences".into(), json!(folder_api_cases));
     cov.insert("forced_overwrite_cases_(force_merge_folder)".into(), force_merge_cases);
+    cov.insert("value_sweep".into(), value_sweep);
     cov.insert("merge_worlds_(sync_engine_by_product)".into(), merge_worlds);
     if prop == "C16" {
         cov.insert("completeness_(corruption_enumerator_integx)".into(), completeness);
